@@ -35,6 +35,48 @@ def functions(path):
     return out
 
 
+def expand_splits(path, tmpdir):
+    """A harness module may define SPLITS = {'lemma_x': ('param', n)}: the lemma is then checked as n separate conditions
+    lemma_x__<v> with param fixed to v (written as real source files, CrossHair needs source), so that they run in parallel.
+    Returns [(generated file, function name, line, timeout, label)] and the set of lemma names that were split."""
+    src = open(path).read()
+    tree = ast.parse(src)
+    splits = {}
+    for n in tree.body:
+        if isinstance(n, ast.Assign) and any(isinstance(t, ast.Name) and t.id == 'SPLITS' for t in n.targets):
+            splits = ast.literal_eval(n.value)
+    out = []
+    done = set()
+    if not splits:
+        return out, done
+    funcs = {n.name: n for n in tree.body if isinstance(n, ast.FunctionDef)}
+    base = os.path.basename(path)[:-3]
+    for name, (param, count) in splits.items():
+        fn = funcs[name]
+        doc = ast.get_docstring(fn) or ''
+        tmo = None
+        m = re.search(r'timeout:\s*(\d+)', doc)
+        if m:
+            tmo = int(m.group(1))
+        pres = [l.strip() for l in doc.splitlines() if l.strip().startswith('pre:')]
+        args = [a.arg for a in fn.args.args]
+        others = [a for a in args if a != param]
+        for v in range(count):
+            gname = '%s__%s%d' % (name, param, v)
+            gfile = os.path.join(tmpdir, '%s__%s.py' % (base, gname))
+            pre_lines = '\n'.join('    ' + re.sub(r'\b%s\b' % re.escape(param), str(v), l) for l in pres)
+            call = ', '.join(str(v) if a == param else a for a in args)
+            code = ('import importlib.util, sys\n_spec = importlib.util.spec_from_file_location(%r, %r)\n_base = importlib.util.module_from_spec(_spec)\nsys.modules[_spec.name] = _base\n'
+                    '_spec.loader.exec_module(_base)\nglobals().update({k: v for k, v in vars(_base).items() if not k.startswith("__")})\n\n\n'
+                    'def %s(%s) -> bool:\n    """\n%s\n    post: __return__\n    """\n    return _base.%s(%s)\n'
+                    % (base + '_base', path, gname, ', '.join('%s: int' % a for a in others), pre_lines, name, call))
+            open(gfile, 'w').write(code)
+            line = code[:code.index('def ' + gname)].count('\n') + 2
+            out.append((gfile, gname, line, tmo, '%s[%s=%d]' % (name, param, v)))
+        done.add(name)
+    return out, done
+
+
 def run_one(path, name, line, timeout):
     env = dict(os.environ, PYTHONPATH=os.environ.get('HIDC_ROOT', '/repo') + ':' + VERIF, PYTHONDONTWRITEBYTECODE='1', PYTHONHASHSEED='0')
     t = time.time()
@@ -82,11 +124,30 @@ def replay(path, name, detail):
 
 def run_into(rep, group, per_condition_timeout=30, procs=None):
     files = sorted(f for f in os.listdir(CH) if f.startswith(group + '_') and f.endswith('.py'))
+    import tempfile
+    tmpdir = tempfile.mkdtemp(prefix='chsplit_')
     jobs = []
+    labels = {}
+    thorough = os.environ.get('VERIF_TIER', 'quick') == 'thorough'
     for f in files:
         p = os.path.join(CH, f)
+        gen, done = expand_splits(p, tmpdir)
+        skip = set()
+        if not thorough:
+            for n in ast.parse(open(p).read()).body:
+                if isinstance(n, ast.Assign) and any(isinstance(t, ast.Name) and t.id == 'THOROUGH_ONLY' for t in n.targets):
+                    skip = set(ast.literal_eval(n.value))
+        rep.cov.setdefault('crosshair_thorough_only_skipped', [])
+        rep.cov['crosshair_thorough_only_skipped'] += sorted(skip)
+        gen = [g for g in gen if g[4].split('[')[0] not in skip]
+        done |= skip
         for name, line, tmo in functions(p):
+            if name in done:
+                continue
             jobs.append((p, name, line, tmo or per_condition_timeout))
+        for gfile, gname, line, tmo, label in gen:
+            jobs.append((gfile, gname, line, tmo or per_condition_timeout))
+            labels[(gfile, gname)] = '%s:%s' % (f, label)
     procs = procs or int(os.environ.get('VERIF_PROCS', '0')) or 16
     t0 = time.time()
     results = []
@@ -98,7 +159,7 @@ def run_into(rep, group, per_condition_timeout=30, procs=None):
         rep.counts['evaluations'] += 1
         rep.counts['obligations'] += 1
         kind = name.split('_')[0]
-        label = '%s:%s' % (r['file'], name)
+        label = labels.get((p, name)) or '%s:%s' % (r['file'], name)
         v = r['verdict']
         if kind == 'lemma':
             if v == 'confirmed':
@@ -147,6 +208,8 @@ def run_into(rep, group, per_condition_timeout=30, procs=None):
                 rep.inconclusive.append('CrossHair finding %s: %s' % (label, v))
         if len(rep.samples) < 12 and kind != 'twin':
             rep.sample(dict(crosshair=label, verdict=v, wall_s=r['wall'], detail=r['detail'][:160] if v != 'confirmed' else ''))
+    import shutil
+    shutil.rmtree(tmpdir, ignore_errors=True)
     rep.cov['crosshair_functions'] = rep.cov.get('crosshair_functions', 0) + len(jobs)
     rep.cov['crosshair_confirmed_over_all_paths'] = rep.cov.get('crosshair_confirmed_over_all_paths', 0) + n_conf
     rep.cov['crosshair_wall_s'] = round(rep.cov.get('crosshair_wall_s', 0) + time.time() - t0, 1)
